@@ -26,7 +26,10 @@ def _label(kind, payload):
 def run_fragments(rep, contracts, tier, clause_filter=None, only_cfg=None, skip_done=False, unit_filter=None):
     jobs = fragment_jobs(contracts, tier, only_cfg)
     if skip_done:
-        jobs = [j for j in jobs if _label(*j) not in rep.units]          # already run (with all its clauses) by the property's own part
+        # already run WITH ALL ITS CLAUSES by the property's own part (a unit run under a clause filter is completed here)
+        jobs = [j for j in jobs if _label(*j) not in rep.units or _label(*j) in rep.filtered_units]
+    elif clause_filter is not None:
+        rep.filtered_units.update(_label(*j) for j in jobs)
     res = run_jobs(jobs)
     rep.add_fragment_results(res, clause_filter, unit_filter)
     for c in contracts:
